@@ -14,10 +14,93 @@ import (
 // currentChoice variants, and one rejected request per documented validation rule.
 
 type CorpusReq struct {
-	Name  string
-	Req   M
-	Valid bool
-	Rule  string // for invalid ones: which documented constraint is violated
+	Name   string
+	Req    M
+	Valid  bool
+	Rule   string // for invalid ones: which documented constraint is violated
+	Always bool   // member of every pair/history sub-corpus (optional-field variants)
+}
+
+// defaultsCorpus: for every optional field of a bias or method, one request that sets it to a non-default value and one
+// that leaves it out (relying on the documented default). A value that leaks from one request (or one application) into
+// a later one that omits the field shows up as history dependence between these.
+func defaultsCorpus() []CorpusReq {
+	var out []CorpusReq
+	add := func(name string, req M) {
+		out = append(out, CorpusReq{Name: "defaults/" + name, Req: req, Valid: true, Always: true})
+	}
+	ws := rootRequest("weightedSum", true, false)
+	b := func(name string, props M) M { return withBiases(ws, []M{{"name": name, "props": props}}) }
+	add("omission/min2", b("criteriaOmission", M{"ratio": 0.5, "min": 2}))
+	add("omission/ratio-only", b("criteriaOmission", M{"ratio": 0.5}))
+	add("omission/max0", b("criteriaOmission", M{"ratio": 0.5, "max": 0}))
+	add("omission/all-defaults", b("criteriaOmission", M{}))
+	add("omission/strongest", b("criteriaOmission", M{"ratio": 0.34, "ordering": "strongest"}))
+	add("reversal/max1-ratio1", b("preferenceReversal", M{"ratio": 1.0, "max": 1}))
+	add("reversal/ratio1", b("preferenceReversal", M{"ratio": 1.0}))
+	add("reversal/min1", b("preferenceReversal", M{"min": 1}))
+	add("concealment/all-defaults", b("criteriaConcealment", M{}))
+	add("concealment/importance1-scaling2-bounded", b("criteriaConcealment", M{"newCriterionImportance": 1.0, "newCriterionScaling": 2.0, "allowedValuesRangeScaling": 0.5, "disallowNegativeValues": true, "randomSeed": 8}))
+	add("concealment/randomUniform-seed-omitted", b("criteriaConcealment", M{"referenceCriterionType": "randomUniform"}))
+	add("concealment/randomUniform-seed9", b("criteriaConcealment", M{"referenceCriterionType": "randomUniform", "newCriterionRandomSeed": 9}))
+	add("concealment/randomWeighted-seed-omitted", b("criteriaConcealment", M{"referenceCriterionType": "randomWeighted"}))
+	add("mixing/all-defaults", b("criteriaMixing", M{}))
+	add("mixing/ratio025-randomWeighted-seed4", b("criteriaMixing", M{"mixingRatio": 0.25, "referenceCriterionType": "randomWeighted", "newCriterionRandomSeed": 4, "randomSeed": 2}))
+	add("mixing/importance1", b("criteriaMixing", M{"newCriterionImportance": 1.0}))
+	add("fatigue/seed-omitted", b("fatigue", M{"function": "const", "params": M{"value": 0.25}}))
+	add("fatigue/seed5-bounded", b("fatigue", M{"function": "const", "params": M{"value": 0.25}, "randomSeed": 5, "allowedValuesRangeScaling": 0.5, "disallowNegativeValues": true}))
+	add("fatigue/exp-params-partial", b("fatigue", M{"function": "expFromZero", "params": M{"alpha": 0.5, "multiplier": 2.0, "queryNumber": 1}}))
+	add("fatigue/exp-multiplier-omitted", b("fatigue", M{"function": "expFromZero", "params": M{"alpha": 0.5, "queryNumber": 1}}))
+	an := func(applier M, coefOmitted bool) M {
+		aa := L{M{"alternative": "a", "coefficient": 2.0}, M{"alternative": "b", "coefficient": 1.0}}
+		if coefOmitted {
+			aa = L{M{"alternative": "a"}, M{"alternative": "b"}}
+		}
+		return b("anchoring", M{"anchoringAlternatives": aa, "referencePoints": M{"function": "ideal"},
+			"gain": M{"function": "linear", "params": M{"a": 0.5, "b": 0.0}}, "loss": M{"function": "linear", "params": M{"a": 1.0}}, "applier": applier})
+	}
+	add("anchoring/inline-flag-true", an(M{"function": "inline", "params": M{"applyOnNotConsidered": true}}, false))
+	add("anchoring/inline-flag-omitted", an(M{"function": "inline", "params": M{}}, false))
+	add("anchoring/inline-bounded-coefficients-omitted", an(M{"function": "inline", "params": M{"allowedValuesRangeScaling": 1.0, "disallowNegativeValues": true}}, true))
+	add("anchoring/newCriterion-defaults", an(M{"function": "newCriterion", "params": M{}}, false))
+	add("anchoring/newCriterion-importance1-seed3", an(M{"function": "newCriterion", "params": M{"newCriterionImportance": 1.0, "randomSeed": 3}}, false))
+	mj := rootRequest("majorityHeuristic", true, false)
+	tie := tieRequest("majorityHeuristic")
+	for _, pol := range []string{"", "allow", "current", "newer", "random"} {
+		kv := M{"drawResolution": pol}
+		if pol == "" {
+			kv = M{}
+		}
+		r := withMP(tie, kv)
+		if pol == "" {
+			delete(asM(r["methodParameters"]), "drawResolution")
+		}
+		add("majority-ties/draw="+pol, r)
+	}
+	add("majority/random-order-seed-omitted", withMP(mj, M{"randomAlternativesOrdering": true}))
+	add("majority/random-order-seed7-current-a", withMP(mj, M{"randomAlternativesOrdering": true, "randomSeed": 7, "currentChoice": "a"}))
+	ae := rootRequest("aspectEliminationHeuristic", true, false)
+	add("aspect/additive-min-omitted", withMP(ae, M{"function": "idealAdditiveCoefficient", "params": M{"coefficient": 0.25, "maxValue": 1.0}}))
+	add("aspect/additive-min05", withMP(ae, M{"function": "idealAdditiveCoefficient", "params": M{"coefficient": 0.25, "minValue": 0.5, "maxValue": 1.0}}))
+	add("aspect/multiplied-min025-max075", withMP(ae, M{"function": "idealMultipliedCoefficient", "params": M{"coefficient": 0.5, "minValue": 0.25, "maxValue": 0.75}}))
+	sa := rootRequest("satisfactionHeuristic", true, false)
+	add("satisfaction/subtractive", withMP(sa, M{"function": "idealSubtractiveCoefficient", "params": M{"coefficient": 0.25, "minValue": 0.25, "maxValue": 1.0}}))
+	add("satisfaction/multiplied", withMP(sa, M{"function": "idealMultipliedCoefficient", "params": M{"coefficient": 0.5, "minValue": 0.125, "maxValue": 0.75}}))
+	el := rootRequest("electreIII", true, false)
+	add("electre/distillation-omitted", el)
+	add("electre/distillation-explicit", withMP(el, M{"electreDistillation": M{"a": -0.125, "b": 0.25}}))
+	add("electre/distillation-b-only", withMP(el, M{"electreDistillation": M{"b": 0.125}}))
+	// declared value ranges that do not start at 0 (a range object rewritten in place would show)
+	for _, m := range []string{"weightedSum", "owa", "majorityHeuristic"} {
+		r := rootRequest(m, true, true)
+		for _, c := range asL(r["criteria"]) {
+			asM(c)["valuesRange"] = M{"min": 0.25, "max": 5.5}
+		}
+		add(m+"/ranges-0.25-5.5/mixing", withBiases(r, []M{{"name": "criteriaMixing", "props": M{"randomSeed": 7}}}))
+		add(m+"/ranges-0.25-5.5/concealment>mixing", withBiases(r, []M{{"name": "criteriaConcealment", "props": M{"randomSeed": 3}}, {"name": "criteriaMixing", "props": M{"randomSeed": 7}}}))
+		add(m+"/ranges-0.25-5.5/reversal", withBiases(r, []M{{"name": "preferenceReversal", "props": M{"ratio": 0.5}}}))
+	}
+	return out
 }
 
 func withMP(req M, kv M) M {
@@ -37,7 +120,7 @@ func withMP(req M, kv M) M {
 }
 
 func validCorpus(level int) []CorpusReq {
-	var out []CorpusReq
+	out := defaultsCorpus()
 	alpha := biasAlphabet(level)
 	for _, m := range allMethods {
 		for _, sub := range []bool{false, true} {
